@@ -207,7 +207,7 @@ def main():
             'engine': 'sa',
             'level_claimed': {'category': c['cat'], 'text': c['text'], 'design_ref': c['sec']},
             'level_note': c['note'],
-            'technique': c['technique'],
+            'technique': c['technique'] + '; functions are first proven equivalent to the reference spelling by a behaviour-preserving normal form of the syntax tree (sa/normal.py, sa/equiv.py), otherwise read as written',
         })
     na = []
     for pid in ALL:
